@@ -38,10 +38,13 @@ type c10Case struct {
 	// Other: after this server was built the application changes the limit on its options object to this value
 	// and builds a second server from it (0 = no second server): every server keeps the limit it was built with
 	Other int64
+	// Overlap: polling: another data request of the same session is still uploading (its body held half-way) when
+	// this one arrives. The server refuses an overlapping request; what it may consume of its body is bounded all the same
+	Overlap bool
 }
 
 func (c c10Case) String() string {
-	return fmt.Sprintf("{L=%d %s rev%d size=%d(%s) decl=%s packets=%d layout=%s frag=%d b64=%v upgraded=%v cut=%d otherServerLimit=%d}", c.L, c.Path, c.Rev, c.Size, c.SizeCls, c.Decl, c.Multi, c.Layout, c.Frag, c.B64, c.Upgraded, c.Cut, c.Other)
+	return fmt.Sprintf("{L=%d %s rev%d size=%d(%s) decl=%s packets=%d layout=%s frag=%d b64=%v upgraded=%v cut=%d otherServerLimit=%d overlap=%v}", c.L, c.Path, c.Rev, c.Size, c.SizeCls, c.Decl, c.Multi, c.Layout, c.Frag, c.B64, c.Upgraded, c.Cut, c.Other, c.Overlap)
 }
 
 func genC10(rt *rapid.T, known bool, col *Collector) c10Case {
@@ -85,6 +88,7 @@ func genC10(rt *rapid.T, known bool, col *Collector) c10Case {
 		}
 		c.Multi = rapid.IntRange(1, 4).Draw(rt, "packets")
 		c.B64 = c.Path == "jsonp" || rapid.Bool().Draw(rt, "b64")
+		c.Overlap = c.L >= 8 && rapid.IntRange(0, 3).Draw(rt, "overlap") == 0
 	case "ws":
 		c.Layout = rapid.SampledFrom([]string{"single", "single", "fragments", "header-only-64bit"}).Draw(rt, "layout")
 		if c.Layout == "fragments" {
@@ -214,6 +218,18 @@ func runC10(c c10Case) (fail string, stats map[string]bool) {
 		_, ct := s.pc.EncodePost(pkts, false)
 		var ex *Exchange
 		declared := int64(len(body))
+		var first *Exchange
+		if c.Overlap {
+			// a first data request whose upload is stuck after two bytes
+			fb, fct := s.pc.EncodePost([]Pkt{{Type: '4', Data: []byte("abcd")}}, false)
+			first = s.pc.StartPostRaw(fb, fct, func(r *ReqSpec) { r.BlockBodyAt = 2 })
+			Settle()
+			if first.Snap().Responded {
+				return "harness: the held upload was answered early: " + fmt.Sprint(first.Snap()), stats
+			}
+			stats["overlapping-a-held-upload"] = true
+			defer func() { first.Abort() }()
+		}
 		ex = s.pc.StartPostRaw(body, ct, func(r *ReqSpec) {
 			switch c.Decl {
 			case "unknown":
@@ -238,6 +254,16 @@ func runC10(c c10Case) (fail string, stats map[string]bool) {
 		}
 		if m := maxDelivered(); int64(m) > c.L {
 			return fmt.Sprintf("a message of %d bytes was delivered, limit %d", m, c.L), stats
+		}
+		if c.Overlap {
+			// refused as an overlap or for its size: which of the two is C11's business; nothing of it is delivered
+			if !snap.Responded || (snap.Status != 400 && snap.Status != 413) {
+				return fmt.Sprintf("data request overlapping a held upload answered %v, want a refusal (400 or 413)", snap), stats
+			}
+			if len(sr.Msgs) != 0 {
+				return fmt.Sprintf("data request overlapping a held upload: %d messages delivered", len(sr.Msgs)), stats
+			}
+			return "", stats
 		}
 		switch {
 		case c.Decl == "lying-small":
@@ -461,7 +487,7 @@ func TestC10MaxPayload(t *testing.T) {
 			rt.Fatalf("%v: %s", c, clipStr(res.Leak, 1500))
 		}
 	})
-	col.RequireClasses(t, "413", "delivered", "connection-terminated", "header-only", "fragmented", "within-1-of-limit", "path.polling", "path.jsonp", "path.ws", "path.wt", "decl.lying-big", "decl.lying-small", "after-upgrade", "frame-header-split-in-transit", "second-server-built-from-the-same-options-object")
+	col.RequireClasses(t, "413", "delivered", "connection-terminated", "header-only", "fragmented", "within-1-of-limit", "path.polling", "path.jsonp", "path.ws", "path.wt", "decl.lying-big", "decl.lying-small", "after-upgrade", "frame-header-split-in-transit", "second-server-built-from-the-same-options-object", "overlapping-a-held-upload")
 }
 
 func TestC10ChunkedFinding(t *testing.T) {
